@@ -45,8 +45,7 @@ func c15Run(c *Ctx, o *opCase, level, sinkMode int) {
 	harness.Pristine()
 	cfg, _ := o.run(c, Delivery{})
 	harness.LogDefault()
-	c.D.Int(int(sink.Writes))
-	c.D.U64(sink.Hash)
+	c.D.Int(int(sink.Writes)) // not the content: zerolog stamps every event with the wall clock
 	c.Inc("cfg.level:" + harness.LogLevelNames[level])
 	c.Inc("fault:sink-" + world.SinkNames[sinkMode] + ":configured")
 	if sink.Failed > 0 {
@@ -81,7 +80,7 @@ func init() {
 		ID:    "C15",
 		Level: "exploration",
 		Rule: "a run is non-trivial when the configured logger actually received at least one event (the configuration changed what the library executed); " +
-			"distinct = distinct run digests (entry point, device counts, canonical results, number and content hash of log writes)",
+			"distinct = distinct run digests (entry point, device counts, canonical results, number of log writes)",
 		QuickSec: 45, ThoroughSec: 480,
 		Setup: func(repo, tier string) error {
 			if err := LoadSamples(repo); err != nil {
